@@ -1,5 +1,6 @@
 #!/bin/sh
-# usage: evalbatch.sh <round-suffix> ids...
+# usage: [WT=/tmp/wt] evalbatch.sh <round-suffix> ids...
 suf=$1; shift
-for w in "$@"; do /verif/tools/eval_seed.py /tmp/wt/$w $w --name=$w-$suf 2>&1 | /venv/bin/python -c "
-import json,sys; d=json.load(sys.stdin); print(d['property'], 'base',d['baseline_ok'],'demo',d['demo_with_change_exit'],d['demo_without_change_exit'], 'own' if d['property'] in d['detected_by'] else '---', 'detected:', sorted(d['detected_by']), 'errors:', {k:v[:100] for k,v in d['analysis_errors'].items()})"; git -C /tmp/wt/$w diff -- pvl > /tmp/$w-$suf.patch; cp /tmp/wt/$w/demo.py /tmp/$w-$suf-demo.py; done
+WT=${WT:-/tmp/wt}
+for w in "$@"; do /verif/tools/eval_seed.py $WT/$w $w --name=$w-$suf 2>&1 | /venv/bin/python -c "
+import json,sys; d=json.load(sys.stdin); print(d['property'], 'base',d['baseline_ok'],'demo',d['demo_with_change_exit'],d['demo_without_change_exit'], 'own' if d['property'] in d['detected_by'] else '---', 'detected:', sorted(d['detected_by']), 'errors:', {k:v[:100] for k,v in d['analysis_errors'].items()})"; git -C $WT/$w diff -- pvl > /tmp/$w-$suf.patch; cp $WT/$w/demo.py /tmp/$w-$suf-demo.py; done
